@@ -23,5 +23,22 @@ def np_diag(interp, v, k=0):
     raise EngineError("np.diag rank")
 
 
+def dc_replace(interp, obj, **changes):
+    """dataclasses.replace(obj, **changes): a NEW instance of the same dataclass whose fields are those of obj except the given
+    ones (TypeError for a name that is not a field); obj itself is not modified"""
+    from pyvc.interp import PyRaise, Ref, new_obj
+    from pyvc.state import cur
+    if not (isinstance(obj, Ref) and obj.kind == "obj" and obj.cls is not None and obj.cls.is_dataclass):
+        raise PyRaise("TypeError", "replace() should be called on dataclass instances")
+    names = [f[0] for f in obj.cls.fields]
+    for k in changes:
+        if k not in names:
+            raise PyRaise("TypeError", f"__init__() got an unexpected keyword argument {k!r}")
+    attrs = dict(obj.content)
+    attrs.update(changes)
+    return new_obj(obj.cls, attrs, frozen=cur().heap[obj.sid].meta.get("frozen", False))
+
+
 def register(lib):
     lib.np.setdefault("diag", LibFunc("np.diag", np_diag))
+    lib.mods.setdefault("dataclasses", {}).setdefault("replace", LibFunc("dataclasses.replace", dc_replace))
